@@ -52,6 +52,10 @@ def drivers(curves):
                 ds.append(Driver("drv_%s_valid_%d" % (c, n), [("seed", "in", 8, 1), ("out", "out", 1, n)],
                                  "        *out = %s::Point::mulgen(&%s::Scalar::from_u64(seed[0])).%s;" % (mod, mod, encf)))
             if n == L or (c in ("p256", "secp256k1") and n in (33, 65)):
+                # the encoding of the neutral in this format, and whether the decoder takes it back as the neutral
+                ds.append(Driver("drv_%s_encn_%d" % (c, n), [("out", "out", 1, n), ("st", "out", 4, 1)],
+                                 "        let e = %s::Point::NEUTRAL.%s; *out = e;\n"
+                                 "        st[0] = match %s::Point::decode(&e[..]) { Some(p) => 1 | ((p.isneutral() & 1) << 1), None => 0 };" % (mod, encf, mod)))
                 # decode then re-encode in the same format (closed-case replay only)
                 ds.append(Driver("drv_%s_rt_%d" % (c, n), [("buf", "in", 1, n), ("out", "out", 1, n), ("st", "out", 4, 1)],
                                  "        match %s::Point::decode(&buf[..]) { Some(p) => { *out = p.%s; st[0] = 1; } None => { *out = [0u8; %d]; st[0] = 0; } }"
@@ -369,6 +373,23 @@ def ground_facts(built, curves):
                 if not same:
                     gf["failed"] += 1
                     bad.append((c, label + " re-encoded", enc, r2["st"][0], "reproduced by encode"))
+        # the neutral: SEC1 fixed-length encoders emit the all-zero string (which the decoders reject, as documented);
+        # every other format round-trips the neutral
+        for n_ in lengths(c):
+            dn = "drv_%s_encn_%d" % (c, n_)
+            if dn in built.drivers:
+                rn = built.native(dn, {})
+                if c in ("p256", "secp256k1"):
+                    good = list(rn["out"]) == [0] * n_ and rn["st"][0] == 0
+                    what = "all-zero string, rejected by the decoder"
+                else:
+                    good = rn["st"][0] == 3
+                    what = "an encoding that decodes back to the neutral"
+                gf["checked"] += 1
+                if not good:
+                    gf["failed"] += 1
+                    gf["facts"].append({"curve": c, "case": "encoding of the neutral (len %d)" % n_, "holds": False})
+                    bad.append((c, "encoding of the neutral (len %d)" % n_, list(rn["out"]), rn["st"][0], what))
         # valid encodings of a few multiples of the generator: decode . encode is the identity on them
         for n_ in lengths(c):
             vd, rt = "drv_%s_valid_%d" % (c, n_), "drv_%s_rt_%d" % (c, n_)
